@@ -105,7 +105,7 @@ LEVELS = {'C07': {'text': 'PARTIAL: proof (Verus, unbounded over all value types
  'C08': {'text': 'PARTIAL: proof (Verus, unbounded over all trees). mutability.rs: the whole tree walk (all Analyzable impls and analyze) equals a relational oracle: var declarations mutable, constants and ALL '
                  'parameters immutable, assignment targets and address-taking that does not pass through a pointer are the mutating uses, E530 iff the variable is known, mutated and declared immutable, exactly one '
                  'table key updated per declaration, every argument of every call analysed. function_calls.rs: E513 hint iff taking the address would fit; the is-immediate-argument flag protocol over the whole walk '
-                 '(D13 was found by this obligation and fixed). The whole-program non-interference consequence is NOT under contract.',
+                 '(D13 was found by this obligation and fixed). constness.rs (whole file, U-CONST): a constant initialiser with an address, an access path, a call or |x| is replaced by the E360/E361 error, whole aggregates are not copied (E531-E533), everything else is returned structurally unchanged - this is what lets mutability.rs skip constant initialisers. The whole-program non-interference consequence is NOT under contract.',
          'note': 'trusted: Verus+Z3, slicer/splicer, vstd HashMap axioms, derived Clone/PartialEq specs, opaque Location'},
  'C09': {'text': 'PARTIAL: proof (Verus, unbounded). value_type.rs: min_i128/max_u128 are exactly -2^(bits-1) / 2^(bits-1)-1 / 2^bits-1 for every integer type; linter.rs: L1142 raised exactly for literals outside that '
                  'range. ALPHA LEXER (lex_line, whole function, all 12 loops): an accepted char/string literal is well formed per a declarative element grammar and its bytes are exactly the documented value (\\n \\r '
